@@ -12,23 +12,34 @@ PROPS_FILES = ["Gama/Props/C13.lean"]
 LEAN_TARGETS = ["Gama.Props.C13"]
 DRIVERS = ["drv_export"]
 RULE = ("net: generated 1D/2D/3D networks (every observation and cluster type, axes/angle conventions, sexagesimal input, "
-        "gross errors that get observations removed) through 3 export/adjust rounds")
-LEVEL_TEXT = ("Lean 4 theorems (all networks of the modelled record types) that GKFparser's attribute handling inverts "
-              "LocalNetwork::export_xml and that exporting is a fixed point, with the parser's attribute tables regenerated "
-              "from gkfparser.cpp on every run (a dropped or mis-routed assignment changes the Lean and breaks the "
-              "proof); the export side is hand-modelled and tied only by the end-to-end oracle (input vs export attribute "
-              "by attribute); adjustment-level claims (same adjusted coordinates, no further iterations, n = 1..3 rounds) explored "
-              "end-to-end.")
-LEVEL_NOTE = ("Numbers are abstract: the theorems assume rd (fmt x) = x for the printed attributes; whether 17/16/8 digits "
-              "suffice is explored, not proved. Trusted: Lean kernel, Props/C13.lean, tools/gen/c13_attrs.py, harness, "
-              "generators.")
-TECHNIQUE = "Lean 4 proof (case analysis over record types, induction over lists) + translator for the attribute tables + correspondence + end-to-end oracle"
+        "gross errors that get observations removed) through 3 export/adjust rounds; doc: generated whole documents (8 axes x 2 angle "
+        "conventions, fix/adj codes in both cases, unused points, every cluster kind with banded covariance, sexagesimal input, "
+        "output in degrees, non-default parameters) through GKFparser + remove_inconsistency + export_xml, twice")
+LEVEL_TEXT = ("Lean 4 theorems, for all networks (any number of points and clusters of the four kinds, all axes/angle conventions), "
+              "that GKFparser followed by remove_inconsistency inverts LocalNetwork::export_xml on points with their status, "
+              "parameters, the network tag, observations with all attributes, vectors, coordinates and the covariance matrices "
+              "including the y_sign conjugation, and that exporting is a fixed point; stated for numbers the printer gives back "
+              "exactly and, for a printer with finitely many digits (projection law), for the quantised network. The parser's "
+              "attribute/code tables and the writer's sites, status letters, y_sign sites and cov-mat call flags are regenerated from "
+              "gkfparser.cpp / network.cpp / observation.cpp / lcoords.h on every run; the model is run against the real parser + "
+              "export writer on generated whole documents (two rounds). Output in degrees is modelled and tied but not proved; "
+              "adjustment-level claims (same adjusted coordinates, no further iterations, n = 1..3 rounds) explored end-to-end.")
+LEVEL_NOTE = ("Numbers are abstract: exact law on the representable numbers, or Codec.Printer (rd (fmt x) = q x, fmt (q x) = fmt x, sign "
+              "symmetric, non-zero never printed as zero) with a fixed-digits decimal printer as witness; whether gama's 17/16/8 digits "
+              "satisfy the side conditions is explored. Trusted: Lean kernel, Props/C13.lean, tools/gen/c13_attrs.py, "
+              "tools/gen/c13_doc.py, harness, generators.")
+TECHNIQUE = "Lean 4 proof (case analysis over record types, induction over lists) + translators for the parser tables and the writer sites + correspondence + end-to-end oracle"
 TRUSTED = ["tools/gen/c13_attrs.py (regex translator: attribute name -> local variable -> toDouble target -> setter/ctor argument "
-           "for every GKFparser::process_*)"]
-MODELLED = ["number formatting/parsing (to_xmlstr, setprecision, toDouble): hypothesis rd∘fmt = id; explored end-to-end",
+           "for every GKFparser::process_*)",
+           "tools/gen/c13_doc.py (regex translator: process_point/parameters/network tables, export_xml writer sites, status chains, "
+           "y_sign sites, updated_xml_covmat call flags; deviations from the modelled shape raise TieBroken)"]
+MODELLED = ["number formatting/parsing (to_xmlstr, setprecision, toDouble): Codec hypotheses; explored end-to-end",
+            "PointData order (std::map) : the model keeps insertion order; <cov-mat> inside <obs>/<height-differences> replacing the "
+            "stdev attributes: the model keeps the attribute (equal for consistent documents)",
             "Acord2 / linearisation / adjustment between parse and export (C06, C01): explored end-to-end only",
-            "text layout of the exported file, expat"]
-ASSUMPTIONS = ["rd (fmt x) = x for every number written by export_xml"]
+            "text layout of the exported file, expat, str2xml escaping (C12)"]
+ASSUMPTIONS = ["Codec.LawfulOn R / Codec.Printer q for the numbers written by export_xml",
+               "output in gons for the network-level theorems (degrees: modelled and tied, not proved)"]
 
 _spec2 = importlib.util.spec_from_file_location("c13_nets", str(VERIF / "tools" / "gen" / "c13_nets.py"))
 N = importlib.util.module_from_spec(_spec2)
@@ -1012,6 +1023,79 @@ def docs_equal(ra, rb):
     return None
 
 
+def doc_same_as_input(doc, exported):
+    """oracle on the implementation alone: the exported document names the same points with the same status and coordinates,
+    the same parameters, and the same vectors / coordinates clusters (values and covariances) as the input it was read from"""
+    gi, ge = canon_real(doc), canon_real(exported)
+    # points: last definition wins; <coordinates> points go through process_point as well
+    pin = {}
+    def upd(a):
+        d = dict(a)
+        i = N.pid_norm(d.get("id", ""))
+        p = pin.setdefault(i, {"xy": None, "z": None, "st": ("none", "none")})
+        if "x" in d:
+            p["xy"] = (float(d["x"]), float(d["y"]))
+        if "z" in d:
+            p["z"] = float(d["z"])
+        st = norm_status(d.get("fix", ""), d.get("adj", ""))
+        p["st"] = (st[0] if st[0] != "none" else p["st"][0], st[1] if st[1] != "none" else p["st"][1])
+    for tag, a, kids, cov in gi:
+        if tag == "pt":
+            upd(a)
+        elif tag == "co":
+            for _, ka in kids:
+                upd(ka)
+    pex = {N.pid_norm(dict(a).get("id", "")): dict(a) for tag, a, _, _ in ge if tag == "pt"}
+    for i, p in pin.items():
+        if p["st"] == ("none", "none"):
+            if i in pex:
+                return f"point {i!r} without status is exported"
+            continue
+        if i not in pex:
+            return f"point {i!r} missing in the export"
+        e = pex[i]
+        if norm_status(e.get("fix", ""), e.get("adj", "")) != p["st"]:
+            return f"status of {i!r}: {p['st']} vs fix={e.get('fix')!r} adj={e.get('adj')!r}"
+        if (p["xy"] is None) != ("x" not in e) or (p["z"] is None) != ("z" not in e):
+            return f"coordinates of {i!r} defined on one side only"
+        if p["xy"] and (not close(p["xy"][0], float(e["x"]), 1e-13, 0) or not close(p["xy"][1], float(e["y"]), 1e-13, 0)):
+            return f"x y of {i!r}: {p['xy']} vs {e['x']} {e['y']}"
+        if p["z"] is not None and not close(p["z"], float(e["z"]), 1e-13, 0):
+            return f"z of {i!r}: {p['z']} vs {e['z']}"
+    pi = next((dict(a) for t, a, _, _ in gi if t == "P"), {})
+    pe = next((dict(a) for t, a, _, _ in ge if t == "P"), {})
+    for k in ("sigma-apr", "conf-pr", "tol-abs", "latitude"):
+        if k in pi and (k not in pe or not close(float(pi[k]), float(pe[k]), 2e-8, 0)):
+            return f"parameter {k}: {pi[k]} vs {pe.get(k)}"
+    if "sigma-act" in pi and pe.get("sigma-act") != pi["sigma-act"]:
+        return f"parameter sigma-act: {pi['sigma-act']} vs {pe.get('sigma-act')}"
+    hi = next((dict(a) for t, a, _, _ in gi if t == "H"), {})
+    he = next((dict(a) for t, a, _, _ in ge if t == "H"), {})
+    if hi.get("axes-xy", "ne") != he.get("axes-xy") or hi.get("angles", "left-handed") != he.get("angles"):
+        return f"axes / angles: {hi} vs {he}"
+    if "epoch" in hi and ("epoch" not in he or float(hi["epoch"]) != float(he["epoch"])):
+        return f"epoch: {hi.get('epoch')} vs {he.get('epoch')}"
+    for kind in ("ve", "co"):
+        ci = [r for r in gi if r[0] == kind]
+        ce = [r for r in ge if r[0] == kind]
+        if len(ci) != len(ce):
+            return f"{len(ci)} vs {len(ce)} <{kind}> clusters"
+        for x, y in zip(ci, ce):
+            if kind == "co":
+                fa, fb = flat_coords(x[2]), flat_coords(y[2])
+            else:
+                fa = [(N.pid_norm(dict(a)["from"]) + ">" + N.pid_norm(dict(a)["to"]), k, dict(a)[k]) for _, a in x[2] for k in ("dx", "dy", "dz")]
+                fb = [(N.pid_norm(dict(a)["from"]) + ">" + N.pid_norm(dict(a)["to"]), k, dict(a)[k]) for _, a in y[2] for k in ("dx", "dy", "dz")]
+            if [(i, k) for i, k, _ in fa] != [(i, k) for i, k, _ in fb]:
+                return f"{kind}: observation lists differ"
+            for (i, k, va), (_, _, vb) in zip(fa, fb):
+                if not close(float(va), float(vb), 1e-13, 0):
+                    return f"{kind}: {k} of {i} {va} vs {vb}"
+            if x[3][0] != y[3][0] or x[3][1] != y[3][1] or any(not close(u, v, 1e-12, 0) for u, v in zip(x[3][2], y[3][2])):
+                return f"{kind}: cov-mat differs from the input's"
+    return None
+
+
 def doc_stream(ctx, corr, exe):
     metas, cases = [], []
     for _ in range(ctx.size(400, 8000)):
@@ -1062,6 +1146,10 @@ def doc_stream(ctx, corr, exe):
         why = docs_equal(ra, canon_model(model[i][:-1]))
         if why:
             corr.disagree("doc", [doc[-1800:]], [exported[-1500:]], model[i][:14], why)
+        why = doc_same_as_input(doc, exported)
+        if why:
+            corr.fail("the exported document does not describe the same survey as the input", dict(payload, diffs=[why]),
+                      "LocalNetwork::export_xml / GKFparser", "doc: " + why)
         if model[i][-1] != "again same":
             # the model regenerated from a tree whose writer and parser disagree (F26, F27) reproduces that; the failing input
             # comes from the implementation's own second round below
@@ -1137,7 +1225,7 @@ def search(ctx, broken, corr):
 def classify(ctx, f):
     d = f.detail or ""
     if f.replay.get("stream") == "doc":
-        if "P: latitude" in d:
+        if "P: latitude" in d or "parameter latitude" in d:
             return "F27"
         if re.search(r"obs: cov-mat element", d) and re.search(r'(angles|angular)="360"', str(f.replay.get("gkf", ""))):
             return "F26"
@@ -1178,7 +1266,9 @@ def replay(ctx, payload):
             return 1
         why = docs_equal(canon_real(e1), canon_real(unhexs(out2[0][0].split()[1])))
         print("export 1 vs export 2:", why or "equivalent")
-        return 1 if why else 0
+        why2 = doc_same_as_input(inp["gkf"], e1)
+        print("input vs export 1:", why2 or "same survey")
+        return 1 if (why or why2) else 0
     if inp.get("stream") != "net":
         return 0
     gdir = build(ctx)
